@@ -732,6 +732,11 @@ struct Exec {
                         viol("C18", "truncated_read_as_complete",
                              "read_gds returned NoError for a file cut at byte " + std::to_string(flen) +
                                  " (complete file: ENDLIB ends at " + std::to_string(truth(ref).endlib_end) + ")", ctx);
+                    else if (trunc == 1 && (int)ec < (int)ErrorCode::ChecksumError)
+                        // the codes before ChecksumError are documented as warnings: the call carried on and what it
+                        // returned is meant to be used
+                        viol("C18", "truncated_reported_as_warning",
+                             std::string("read_gds reported only the warning ") + bridge::error_name(ec) + " for a file cut at byte " + std::to_string(flen), ctx);
                     if (trunc == 0 && ec != ErrorCode::NoError)
                         viol("C03", "complete_file_rejected", std::string("read_gds returned ") + bridge::error_name(ec) + " for a complete file", ctx);
                     guarded([&]() { lib.free_all(); });
@@ -747,6 +752,11 @@ struct Exec {
                         viol("C18", "truncated_read_as_complete",
                              "read_rawcells returned NoError (" + std::to_string(m.count) +
                                  " cells) for a file cut at byte " + std::to_string(flen), ctx);
+                    else if (!no_ec && trunc == 1 && (int)ec < (int)ErrorCode::ChecksumError)
+                        // the codes before ChecksumError are documented as warnings: the call carried on and what it
+                        // returned is meant to be used
+                        viol("C18", "truncated_reported_as_warning",
+                             std::string("read_rawcells reported only the warning ") + bridge::error_name(ec) + " for a file cut at byte " + std::to_string(flen), ctx);
                     if (!no_ec && trunc == 0 && ec != ErrorCode::NoError)
                         viol("C17", "complete_file_rejected", std::string("read_rawcells returned ") + bridge::error_name(ec) + " for a complete file", ctx);
                     guarded([&]() {
@@ -783,6 +793,11 @@ struct Exec {
                     if (trunc == 1 && ec == ErrorCode::NoError)
                         viol("C18", "truncated_read_as_complete",
                              "gds_info returned NoError for a file cut at byte " + std::to_string(flen), ctx);
+                    else if (trunc == 1 && (int)ec < (int)ErrorCode::ChecksumError)
+                        // the codes before ChecksumError are documented as warnings: the call carried on and what it
+                        // returned is meant to be used
+                        viol("C18", "truncated_reported_as_warning",
+                             std::string("gds_info reported only the warning ") + bridge::error_name(ec) + " for a file cut at byte " + std::to_string(flen), ctx);
                     if (trunc == 0 && ec != ErrorCode::NoError)
                         viol("C17", "complete_file_rejected", std::string("gds_info returned ") + bridge::error_name(ec) + " for a complete file", ctx);
                 }
@@ -2755,6 +2770,10 @@ struct Exec {
                     if (q.spine.size() > 8190) count("model_paths_above_8190_points");
                     if (q.impl == 1) count(q.simple ? "model_simple_robustpaths" : "model_nonsimple_robustpaths");
                     if (!q.simple && q.impl == 0) count("model_nonsimple_flexpaths");
+                    if (!q.voffs.empty()) count("model_paths_with_offsets_changing_along_the_way");
+                    if (q.tol_steps > 0) count("model_paths_with_a_tolerance_of_their_own");
+                    if (q.tol_steps > 0 && model::centre_line(q).size() + 2 <= q.spine.size()) count("model_paths_losing_two_or_more_vertices_to_their_tolerance");
+                    if (q.prescale != 1) count("model_paths_brought_to_size_by_scale");
                 }
                 for (auto& q : c.polys) {
                     if (q.pts.size() >= 8189) count("model_polygons_of_8189_points_or_more");
